@@ -25,18 +25,26 @@ pub enum BodyRx {
 
 /// Reach the body-receiving state through the real API with the given response head.
 pub fn reach_body_rx(use_call: bool, method: &str, head: &[u8]) -> Result<BodyRx, String> {
-    reach_body_rx_cut(use_call, method, head, None)
+    reach_body_rx_cut(use_call, method, head, None, None)
 }
 
 /// `cut`: the head first arrives only up to this offset and the caller looks at it (a caller
 /// that is handed a response proceeds with it - it cannot know better).
-pub fn reach_body_rx_cut(use_call: bool, method: &str, head: &[u8], cut: Option<usize>) -> Result<BodyRx, String> {
+/// `interim`: an interim 1xx head that the peer sends first; the caller is handed that response,
+/// knows that it is not the final one and polls on.
+pub fn reach_body_rx_cut(use_call: bool, method: &str, head: &[u8], cut: Option<usize>, interim: Option<&[u8]>) -> Result<BodyRx, String> {
     let req = build_request(method, 11, "http://a.test/x", &[]);
     let mut buf = [0u8; 512];
     if use_call {
         let mut c = lib("Call::without_body", || Call::without_body(req)).map_err(|e| e.to_string())?;
         lib("Call<WithoutBody>::write", || c.write(&mut buf)).map_err(|e| e.to_string())?;
         let mut r = lib("Call::into_receive", || c.into_receive()).map_err(|e| e.to_string())?;
+        if let Some(i) = interim {
+            match lib("Call<RecvResponse>::try_response", || r.try_response(i)) {
+                Ok(Some((n, _))) if n == i.len() => {}
+                other => return Err(format!("interim head not accepted: {:?}", other.map(|o| o.map(|x| x.0)))),
+            }
+        }
         let mut early = false;
         if let Some(c) = cut {
             match lib("Call<RecvResponse>::try_response", || r.try_response(&head[..c])) {
@@ -48,6 +56,7 @@ pub fn reach_body_rx_cut(use_call: bool, method: &str, head: &[u8], cut: Option<
         if !early {
             match lib("Call<RecvResponse>::try_response", || r.try_response(head)) {
                 Ok(Some((n, _))) if n == head.len() => {}
+                other if interim.is_some() => return Err(format!("polling past the interim head refused: {:?}", other.map(|o| o.map(|x| x.0)))),
                 other => return Err(format!("head not accepted: {:?}", other.map(|o| o.map(|x| x.0)))),
             }
         }
@@ -64,6 +73,12 @@ pub fn reach_body_rx_cut(use_call: bool, method: &str, head: &[u8], cut: Option<
             Ok(Some(SendRequestResult::RecvResponse(r))) => r,
             _ => return Err("no RecvResponse".into()),
         };
+        if let Some(i) = interim {
+            match lib("Flow<RecvResponse>::try_response", || r.try_response(i)) {
+                Ok((n, Some(_))) if n == i.len() => {}
+                other => return Err(format!("interim head not accepted: {:?}", other.map(|o| o.0))),
+            }
+        }
         let mut early = false;
         if let Some(c) = cut {
             match lib("Flow<RecvResponse>::try_response", || r.try_response(&head[..c])) {
@@ -75,6 +90,7 @@ pub fn reach_body_rx_cut(use_call: bool, method: &str, head: &[u8], cut: Option<
         if !early {
             match lib("Flow<RecvResponse>::try_response", || r.try_response(head)) {
                 Ok((n, Some(_))) if n == head.len() => {}
+                other if interim.is_some() => return Err(format!("polling past the interim head refused: {:?}", other.map(|o| o.0))),
                 other => return Err(format!("head not accepted: {:?}", other.map(|o| o.0))),
             }
         }
@@ -176,7 +192,7 @@ pub fn c07_small_coding(mut k: u64, seed: u64) -> crate::gen::Coding {
         sizes.push(1 + (k % 3) as usize);
         k /= 3;
     }
-    crate::gen::encode_chunked(&crate::gen::CodingOpts { sizes, upper: false, leading_zeros: zeros as usize * 2, ext, trailers, payload_seed: seed, exact20: false })
+    crate::gen::encode_chunked(&crate::gen::CodingOpts { sizes, upper: false, leading_zeros: zeros as usize * 2, ext, trailers, payload_seed: seed, exact20: false, bws: 0 })
 }
 
 pub fn c07(ctx: &mut Ctx) -> R {
@@ -225,8 +241,18 @@ pub fn c07_with(ctx: &mut Ctx, plan: C07Plan) -> R {
     let method = *ctx.pick(&["GET", "GET", "DELETE", "OPTIONS"]);
     let status = *ctx.pick(&[200u16, 200, 201, 404, 500, 301, 307, 399]);
     let head = format!("HTTP/1.1 {} X\r\n{}{}Transfer-Encoding: {}\r\n\r\n", status, if (300..400).contains(&status) && status != 399 { "Location: /n\r\n" } else { "" }, if ctx.chance(1, 8) { "Content-Length: 3\r\n" } else { "" }, *ctx.pick(&["chunked", "Chunked", "gzip, chunked"]));
-    let mut rx = match reach_body_rx(use_call, method, head.as_bytes()) {
+    // history: an interim 1xx head first, polled past by an interim-aware caller (random runs only)
+    let interim: Option<Vec<u8>> = if !enumerated && ctx.chance(1, 10) { Some(crate::scen_exchange::interim_1xx(ctx, None)) } else { None };
+    if interim.is_some() {
+        ctx.count("f:interim_1xx_before_final_head");
+    }
+    let mut rx = match reach_body_rx_cut(use_call, method, head.as_bytes(), None, interim.as_deref()) {
         Ok(v) => v,
+        Err(e) if e.contains("polling past the interim head refused") => {
+            ctx.count("p:interim_poll_refused");
+            ctx.nontrivial = true;
+            return Ok(());
+        }
         Err(e) => {
             if e.contains("no RecvBody state") || e.contains("no body state") {
                 set_observed(true);
@@ -494,8 +520,17 @@ pub fn c08(ctx: &mut Ctx) -> R {
     };
     // the head may arrive in two pieces (not inside a 3xx head: those cuts are owned by C05)
     let cut = if !(300..400).contains(&status) && ctx.chance(1, 3) { Some(ctx.range(0, head.len() - 1)) } else { None };
-    let mut rx = match reach_body_rx_cut(use_call, method, head.as_bytes(), cut) {
+    let interim: Option<Vec<u8>> = if ctx.chance(1, 10) { Some(crate::scen_exchange::interim_1xx(ctx, None)) } else { None };
+    if interim.is_some() {
+        ctx.count("f:interim_1xx_before_final_head");
+    }
+    let mut rx = match reach_body_rx_cut(use_call, method, head.as_bytes(), cut, interim.as_deref()) {
         Ok(v) => v,
+        Err(e) if e.contains("polling past the interim head refused") => {
+            ctx.count("p:interim_poll_refused");
+            ctx.nontrivial = true;
+            return Ok(());
+        }
         Err(e) => {
             if e.contains("no RecvBody state") || e.contains("no body state") {
                 // by construction a non-empty body follows (N >= 1 or close-delimited, status and
